@@ -16,8 +16,12 @@ CLASSES = {
     "multi": dict(capital=True, splits=True, n_sec=(2, 4), steps=(4, 12), templates_p=0.5),
     "single_dense": dict(capital=False, splits=True, n_sec=(1, 1), steps=(8, 18), templates_p=0.6),
     "plain": dict(capital=False, splits=False, n_sec=(1, 3)),
+    # CAPRETURN/ACCUMULATION may share a date with trades of the security: whatever the convention for such a
+    # day is, the report must not depend on the order of its lines
+    "event_on_trade_date": dict(capital=True, splits=True, strict_capital=False, n_sec=(1, 2), steps=(5, 12),
+                                templates_p=0.5, sell_p=0.4),
     # labelled class: a SPLIT/UNSPLIT may share a date with a BUY/SELL of the same security (finding F15)
-    "split_on_trade_date": dict(capital=False, splits=True, strict=False, n_sec=(1, 2), steps=(4, 10), sell_p=0.4),
+    "split_on_trade_date": dict(capital=False, splits=True, strict_splits=False, n_sec=(1, 2), steps=(4, 10), sell_p=0.4),
 }
 
 
